@@ -299,6 +299,8 @@ _EXTRA = {
     'R103': (['C20', 'C05'], 'R103: the key-list type function splits at commas and rejects unknown names under the membership fact; _make_sort_key looks names up on the model, appends found methods, stores True flags for the others, and returns (function, flags).'),
     'R104': (_ALL, 'R104: in no loop does a variable that is set from the current element only on some paths reach a use in a later iteration without having been set again (reaching definitions through the loop head plus a definition-free path from the head to the use).'),
     'R105': (['C20', 'C16'], 'R105: _get_model binds each model exactly in its documented case (facts on --amr / --noop / --model), _indent maps the words to None, numbers through int(), rejects exactly values below -1 and defaults to -1, process chooses format_triples / format by the triples flag and formats the result of _process_out, and main feeds every process() status into the exit status (accumulating inside the file loop).'),
+    'R106': (['C09', 'C20', 'C17'], 'R106: a stream parameter (or a plain alias of it, by reaching definitions) is never the subject of `with`, `.close()` or a sized `read`/`readline`.'),
+    'R107': (['C18'], 'R107: the condition of the "unbalanced quotes" error is, as a propositional formula over startswith(quote) / endswith(quote), exactly their exclusive or (no further atom).'),
     'R87': (['C20', 'C17'], 'R87: the option tables main() builds once are only read by process/_process_in/_process_out (alias-following over what is unpacked from them).'),
     'R86': (['C01', 'C07', 'C09', 'C20'], 'R86: an argument annotated as Iterable / Iterator / file is walked at most once on every path (a second walk of a file or generator finds nothing).'),
 }
